@@ -2,24 +2,24 @@
 from pyvc.vc import contract, bounded
 from contracts.mcmc_gibbs import gibbs_take_step
 
-contract("C01", "gibbs_take_step", native=False)(gibbs_take_step)
+contract("C01", "gibbs_take_step", native=False, replay_with="stationary_moments_native")(gibbs_take_step)
 
 
 from contracts.mcmc_pca import pca_take_step
-contract("C01", "pca_take_step", native=False)(pca_take_step)
+contract("C01", "pca_take_step", native=False, replay_with="stationary_moments_native")(pca_take_step)
 
 
 from contracts.mcmc_hmc import hmc_take_step
-contract("C01", "hmc_take_step", native=False)(hmc_take_step)
+contract("C01", "hmc_take_step", native=False, replay_with="stationary_moments_native")(hmc_take_step)
 
 
 from contracts.mcmc_ensemble import ensemble_advance_walker
-contract("C01", "ensemble_advance_walker", native=False)(ensemble_advance_walker)
+contract("C01", "ensemble_advance_walker", native=False, replay_with="stationary_moments_native")(ensemble_advance_walker)
 
 # C01.hmc.reversible_proposal: imported from C07 (the structure of the trajectory map that generates the proposal)
 from contracts.c07_hamiltonian import standard_leapfrog_structure, bounded_leapfrog_structure
-contract("C01", "standard_leapfrog_structure", native=False)(standard_leapfrog_structure)
-contract("C01", "bounded_leapfrog_structure", native=False)(bounded_leapfrog_structure)
+contract("C01", "standard_leapfrog_structure", native=False, replay_with="stationary_moments_native")(standard_leapfrog_structure)
+contract("C01", "bounded_leapfrog_structure", native=False, replay_with="stationary_moments_native")(bounded_leapfrog_structure)
 
 
 # ---- bounded layer: the samplers reproduce the moments of a known target ----------------------------------------------
